@@ -119,8 +119,7 @@ func (n *Node) p2p(c *Chain, it Item) {
 	}
 	da := n.M.VerifDAHeight()
 	if it.T == "h" {
-		cp := *c.Headers[it.I]
-		n.M.VerifHeaderInCh() <- blockHeaderEvent(&cp, da)
+		n.M.VerifHeaderInCh() <- blockHeaderEvent(n.IngressHeader(c.Headers[it.I]), da)
 	} else {
 		cp := *c.Datas[it.I]
 		n.M.VerifDataInCh() <- blockDataEvent(&cp, da)
